@@ -668,7 +668,9 @@ static inline int myth_mutex_unlock_body(myth_mutex_t * mutex) {
       }
     }
   }
-  return failed;
+  /* failed counts lost CAS races; it is not an error number */
+  (void)failed;
+  return 0;
 }
 
 static inline int
